@@ -56,7 +56,12 @@ struct Beh {
     fail_first: usize,
     always_fail: bool,
     eager: bool,
+    custom_payload: bool,
 }
+
+/// a panic payload that is neither `String` nor `&'static str`
+#[derive(Debug)]
+pub struct CustomPayload(pub u32);
 
 #[derive(Debug)]
 pub struct Wd {
@@ -137,6 +142,9 @@ fn behave(kind: &str, key: String, w: usize, wc: usize) -> impl Future<Output = 
         INFLIGHT.fetch_sub(1, Ordering::SeqCst);
         if b.always_fail || n <= b.fail_first {
             log(format!("exit {kind} [{key}] call={n} panic"));
+            if b.custom_payload {
+                std::panic::panic_any(CustomPayload(42));
+            }
             panic!("scripted failure of {key}");
         }
         log(format!("exit {kind} [{key}] call={n} ok"));
@@ -301,6 +309,7 @@ fn inner(lines: Vec<Vec<String>>, raw: String) -> Vec<String> {
                     fail_first: kv(l, "fail_first").map_or(0, |v| v.parse().unwrap()),
                     always_fail: l.iter().any(|t| t == "always_fail"),
                     eager: l.iter().any(|t| t == "eager"),
+                    custom_payload: l.iter().any(|t| t == "payload=custom"),
                 };
                 BEH.with(|m| m.borrow_mut().insert(key, b));
             }
